@@ -5,7 +5,8 @@ E3 (lock-step product of an object and its reloaded copy):
   vm     : VacancyMediated on each crystal; every history over {a, b, S} of the depth bound with at least one S
            (a, b = evaluate Lij on input a / b (b shares the vacancy data with a), S = addhdf5 + loadhdf5 into an
            in-memory file; after S both the original and the copy continue; F = a foreign calculator -- the same
-           network on a lattice scaled by 1.25 -- is saved before use, reloaded and evaluated on a, b, c in the same process); after the history every input of the
+           network on a lattice scaled by 1.25 -- is saved before use, reloaded and evaluated on a, b, c in the same process; M = the caller
+           overwrites in place the arrays it passed to its last Lij call with the values of input c, without calling anything); after the history every input of the
            pool {a, b, c} is evaluated on both: results must be equal (==, same arithmetic), tags equal, caches equal
   gf     : GFCrystalcalc save/load (before any SetRates, as documented), then SetRates + every endpoint of a small set
   stars  : StarSet / VectorStarSet save/load: states, stars, index tables, vector stars, outer products
@@ -22,7 +23,7 @@ from mc import vm, catalog, inter
 PID = 'C13'
 ENGINE = 'E3'
 TECHNIQUE = 'lock-step exploration of (object, reloaded copy) over all save positions in bounded histories; bitwise equality of all subsequent results; exhaustive YAML round trips over instance pools'
-RULE = ('vm: every history of length <= depth over {a,b,S,F} containing S; state = (original, copy); nontrivial = histories in which the save '
+RULE = ('vm: every history of length <= depth over {a,b,S,F,M} containing S; state = (original, copy); nontrivial = histories in which the save '
         'happens after the cache was populated; yaml/hdf5 pools: every listed instance')
 LEVEL_TEXT = 'All save positions in all histories up to the depth bound, all instances of the pools; equality is exact (same arithmetic on both sides).'
 LEVEL_NOTE = 'HDF5 files are in memory (driver=core, backing_store=False); YAML through yaml.dump / yaml.load(Loader=yaml.Loader) as the package tests do.'
@@ -40,7 +41,7 @@ def cases(tier):
     out = []
     for (n, i) in (VMCRYS[:4] if tier == 'quick' else VMCRYS):
         depth = 3 if tier == 'quick' else 4
-        hs = [h for L in range(1, depth + 1) for h in itertools.product('abSF', repeat=L) if 'S' in h]
+        hs = [h for L in range(1, depth + 1) for h in itertools.product('abSFM', repeat=L) if 'S' in h]
         for c in range(0, len(hs), 12):
             out.append({'key': 'vm/{}/{}'.format(n, c // 12), 'type': 'vm', 'crystal': n, 'icut': i, 'histories': [''.join(h) for h in hs[c:c + 12]], 'cost': 2})
     for n in ['HCP', 'OMEGA', 'HONEY'] + (['PYROPE'] if tier != 'quick' else ['SQUARE']):
@@ -79,6 +80,7 @@ def eval_vm(case):
     slF, jnF = crysF.sitelist(chem), crysF.jumpnetwork(chem, catalog.meta(name)['cut'][icut] * 1.25)
     for hist in case['histories']:
         calcs = [OnsagerCalc.VacancyMediated(crys, chem, sl, jn, 1)]
+        lastargs = {}
         populated_before_save = False
         try:
             for n, op in enumerate(hist):
@@ -102,8 +104,18 @@ def eval_vm(case):
                         finally:
                             f.close()
                     calcs = calcs + new
+                elif op == 'M':
+                    # the caller reuses, in place, the arrays of its last Lij call to hold input c (no call is made)
+                    for c in calcs:
+                        la = lastargs.get(id(c))
+                        if la is None: continue
+                        for arr, newarr in zip(la, c.preene2betafree(1.0, **data['c'])): arr[...] = newarr
                 else:
-                    res = [tuple(np.array(x) for x in c.Lij(*c.preene2betafree(1.0, **data[op]))) for c in calcs]
+                    res = []
+                    for c in calcs:
+                        args = c.preene2betafree(1.0, **data[op])
+                        lastargs[id(c)] = args
+                        res.append(tuple(np.array(x) for x in c.Lij(*args)))
                     ntr += len(calcs)
                     for k in range(1, len(res)):
                         for nm, x, y in zip(('L0vv', 'Lss', 'Lsv', 'L1vv'), res[0], res[k]):
